@@ -73,6 +73,8 @@ type C1 struct {
 
 	IOErr           error  // identity of the injected hard I/O error (nil: the plain sentinel); always wraps ErrSimIO
 	Endless         bool   // oversize: after the scripted bytes the sender never stops
+	Reconnect       int    // (follow-up call, network clients) before this call: 1 = Connect again without Close, 2 = Close then Connect
+	ConfOneFunc     int    // network clients built by the protocol constructors: 1 = only ParseResponseFunc given in the config (the protocol's own), 2 = only AsProtocolErrorFunc
 	DeadlinePort    bool   // serial port without Flush but with SetReadDeadline
 	NilHooksOption  bool   // serial client built with WithSerialHooks(nil) when no hooks are wanted
 	WrappedTimeouts bool   // network transports report read timeouts as a *net.OpError wrapping the sentinel, as real sockets do
@@ -138,6 +140,8 @@ type C1Outcome struct {
 	Hang              bool
 	OverStep          bool
 	Flushes           int
+	StaleIO           string // first use of a connection that a later Connect had replaced
+	PendingRead       bool   // Do returned while a transport read it had started was still in progress
 	WDeadlineRejected int
 	ConnErr           error
 
@@ -190,7 +194,15 @@ func (p flushPort) Flush() error {
 }
 
 // ioErrKinds: what a broken connection reports in practice. Each wraps ErrSimIO so that oracles can ask for the cause.
-var ioErrCauses = []error{nil, syscall.ECONNRESET, syscall.EPIPE, syscall.ECONNABORTED, net.ErrClosed, io.ErrClosedPipe, io.ErrUnexpectedEOF}
+var ioErrCauses = []error{nil, syscall.ECONNRESET, syscall.EPIPE, syscall.ECONNABORTED, net.ErrClosed, io.ErrClosedPipe, io.ErrUnexpectedEOF, foreignTimeout{}}
+
+// foreignTimeout is a net.Error that says Timeout() but does not wrap os.ErrDeadlineExceeded (what transports other than
+// the standard library's report, e.g. a TLS or serial-over-IP wrapper): to the client it is an ordinary I/O failure.
+type foreignTimeout struct{}
+
+func (foreignTimeout) Error() string   { return "operation timed out (foreign transport)" }
+func (foreignTimeout) Timeout() bool   { return true }
+func (foreignTimeout) Temporary() bool { return true }
 
 func genIOErr(t *Tape) error {
 	c := ioErrCauses[t.Choose(len(ioErrCauses))]
@@ -211,6 +223,63 @@ func (sc *C1) ioErr() error {
 }
 
 var errSimFlush = fmt.Errorf("simulated flush failure: %w", ErrSimIO)
+
+// connGen is what the dial function hands to the client: one generation of "the connection". The harness keeps one
+// underlying simulated stream; a later Connect replaces the generation, and Close ends it. A client that goes on using a
+// replaced or closed generation is talking to nobody.
+type connGen struct {
+	*Conn
+	gen    int
+	cur    *int
+	closed bool
+	stale  *string
+}
+
+func (g *connGen) dead(op string) error {
+	if g.closed {
+		return &net.OpError{Op: op, Net: "sim", Err: net.ErrClosed}
+	}
+	if g.gen != *g.cur {
+		if *g.stale == "" {
+			*g.stale = fmt.Sprintf("%s on connection #%d although Connect has replaced it with #%d", op, g.gen, *g.cur)
+		}
+		return &net.OpError{Op: op, Net: "sim", Err: fmt.Errorf("connection replaced: %w", ErrSimIO)}
+	}
+	return nil
+}
+
+func (g *connGen) Read(b []byte) (int, error) {
+	if err := g.dead("read"); err != nil {
+		return 0, err
+	}
+	return g.Conn.Read(b)
+}
+
+func (g *connGen) Write(b []byte) (int, error) {
+	if err := g.dead("write"); err != nil {
+		return 0, err
+	}
+	return g.Conn.Write(b)
+}
+
+func (g *connGen) SetWriteDeadline(t time.Time) error {
+	if g.closed {
+		return g.dead("set write deadline")
+	}
+	return g.Conn.SetWriteDeadline(t)
+}
+
+func (g *connGen) Close() error {
+	if g.closed {
+		return nil
+	}
+	g.closed = true
+	g.Conn.lock()
+	g.Conn.record(IORec{Kind: "close"})
+	g.Conn.unlock()
+	g.Conn.sim.Logf("close %s #%d", g.Conn.Name, g.gen)
+	return nil
+}
 
 // RunC1 executes one client1 run inside the current synctest bubble.
 func RunC1(rc *RunCtx, sc *C1) *C1Outcome {
@@ -297,6 +366,11 @@ func RunC1(rc *RunCtx, sc *C1) *C1Outcome {
 		Do(context.Context, packet.Request) (packet.Response, error)
 	}
 	var connect func() error
+	closeClient := func() error { return nil }
+	gen := 0
+	reading := 0
+	cl.OnReadBegin = func(*Conn) { reading++ }
+	cl.OnReadEnd = func(*Conn) { reading-- }
 	switch sc.Kind {
 	case KTCP, KRTU:
 		conf := modbus.ClientConfig{
@@ -310,7 +384,8 @@ func RunC1(rc *RunCtx, sc *C1) *C1Outcome {
 					}
 					return nil, fmt.Errorf("dial refused: %w", ErrSimRefused)
 				}
-				return cl, nil
+				gen++
+				return &connGen{Conn: cl, gen: gen, cur: &gen, stale: &out.StaleIO}, nil
 			},
 		}
 		if hooks != nil {
@@ -343,12 +418,30 @@ func RunC1(rc *RunCtx, sc *C1) *C1Outcome {
 			}
 			c = modbus.NewClient(conf)
 		case sc.Kind == KTCP:
+			switch sc.ConfOneFunc {
+			case 1:
+				conf.ParseResponseFunc = packet.ParseTCPResponse
+			case 2:
+				conf.AsProtocolErrorFunc = packet.AsTCPErrorPacket
+			}
 			c = modbus.NewTCPClientWithConfig(conf)
 		default:
+			switch sc.ConfOneFunc {
+			case 1:
+				conf.ParseResponseFunc = packet.ParseRTUResponseWithCRC
+			case 2:
+				conf.AsProtocolErrorFunc = func(b []byte) error {
+					if !RTUConsistent(b) {
+						return nil
+					}
+					return packet.AsRTUErrorPacket(b)
+				}
+			}
 			c = modbus.NewRTUClientWithConfig(conf)
 		}
 		doer = c
 		connect = func() error { return c.Connect(context.Background(), "sim:502") }
+		closeClient = c.Close
 	case KSerial:
 		cl.SerialMode = true
 		cl.PortTimeout = sc.PortTimeout
@@ -392,6 +485,7 @@ func RunC1(rc *RunCtx, sc *C1) *C1Outcome {
 		out.Resp, out.Err = doer.Do(ctx, req)
 		out.Elapsed = s.Now() - t0
 		out.Returned = true
+		out.PendingRead = reading > 0
 		s.Logf("do-returned err=%v", out.Err)
 		// follow-up calls on the same client and connection (each with its own reply script)
 		for next := sc.Then; next != nil; next = next.Then {
@@ -408,12 +502,22 @@ func RunC1(rc *RunCtx, sc *C1) *C1Outcome {
 			if next.IdleBefore > 0 && tk.Sleep("idle-between-calls", next.IdleBefore) == Drained {
 				return
 			}
+			if sc.Kind != KSerial && sc.Fault != FNotConnected && sc.Fault != FDialFail {
+				switch next.Reconnect {
+				case 1:
+					o.ConnErr = connect()
+				case 2:
+					closeClient()
+					o.ConnErr = connect()
+				}
+			}
 			t1 := s.Now()
 			// follow-up calls get a fresh context: a deadline left over from the first call could fall on the follow-up's own
 			// timeout instant, and Go picks at random when both are ready in one select (not a tape decision)
 			o.Resp, o.Err = doer.Do(context.Background(), next.LibReq)
 			o.Elapsed = s.Now() - t1
 			o.Returned = true
+			o.PendingRead = reading > 0
 			s.Logf("do-returned err=%v", o.Err)
 			out.Next = append(out.Next, o)
 		}
